@@ -267,8 +267,13 @@ class DisambiguateChoices(RelativeHandlerInterface):
                 nillable=False,
             ),
             types=[tp.clone() for tp in choice.types],
+            default=choice.default,
+            fixed=choice.fixed,
         )
         reference.attrs.append(new_attr)
+        # The default value belongs to the simple value, not the reference
+        choice.default = None
+        choice.fixed = False
 
     @classmethod
     def add_extension(cls, reference: Class, choice: Attr):
